@@ -7,7 +7,7 @@ import OjgVerif.JPath.FilterSpec
 Request: `<op> <rep> <flags> <path> <data>` (tab separated)
 * op: `specrfc` (the documented denotation: RFC 9535 slices), `spec` (the denotation in the code's reading of slices), `get` (the Get machine), `gets` (Get through the skeleton, with
   locations), `first`, `has`, `locate`, `walk`, `nodes`, `firstnode` (the skeleton models); `firstm`, `hasm` (the
-  FirstFound and Has work-list machines of JPath/Machines.lean), `locatem`, `walkm` (the recursive locate/Walk
+  FirstFound and Has work-list machines of JPath/Machines.lean), `nodesm`, `firstnodem` (the GetNodes and FirstNode machines), `locatem`, `walkm` (the recursive locate/Walk
   methods of JPath/Machines.lean, no budget), `locatemax<k>` (Locate with the budget `max = k`)
 * rep: `<array kind>.<object kind>`, e.g. `any.map`, `gen.gen`, `indexed.keyed`, `rslice.struct`
 * flags: the deviation flags that are on, one letter each (`-` = none):
@@ -308,6 +308,8 @@ def answer (op : String) (cfg : Cfg) (rep : Rep) (x : List Frag) (d : JV) : Stri
   else if op = "gets" then renderLocated (getS cfg rep x d)
   else if op = "first" then renderOpt (firstM cfg rep x d)
   else if op = "has" then toString (hasM cfg rep x d)
+  else if op = "nodesm" then renderVals (nodesMach cfg x d)
+  else if op = "firstnodem" then renderOpt (firstNodeMach cfg x d)
   else if op = "firstm" then renderOpt (firstMach cfg rep x d)
   else if op = "hasm" then toString (hasMach cfg rep x d)
   else if op = "locatem" then (if Locate.fault cfg rep x d then "panic" else renderLocated (locateRec cfg rep x 0 d))
